@@ -26,7 +26,7 @@ CHECKS = {
                 "with a complete reference path; distinct = hash of (dictionary description, user lexicon, mapping, sentence, options).",
         "required_buckets": ["connector_matrix", "connector_raw", "connector_dual", "with_user_lexicon", "with_id_mapping",
                              "astral_in_sentence", "inner_gap_observed", "leading_gap_observed", "trailing_gap_observed",
-                             "unknown_token_observed", "user_token_observed", "id_equal_to_dimension_rejected_by_builder", "two_id_mappings_then_user_lexicon", "user_lexicon_then_two_id_mappings", "tokenize_called_twice"],
+                             "unknown_token_observed", "user_token_observed", "id_equal_to_dimension_rejected_by_builder", "two_id_mappings_then_user_lexicon", "user_lexicon_then_two_id_mappings", "tokenize_called_twice", "witness_sentence_longer_than_65536_characters_ok"],
         "assumptions": ["the reference character table (last covering range line wins, DEFAULT otherwise) is the reading of char.def the property states",
                         "termination is observed up to the per-stage watchdog only"],
     },
@@ -134,7 +134,7 @@ CHECKS = {
                 "Non-trivial = sentence with a space run and >= 1 token compared with >= 1 variant; distinct = hash of (dictionary, sentence).",
         "required_buckets": ["inner_space_run", "leading_space_run", "trailing_space_run", "spaces_only_sentence",
                              "grouped_unknown_word_next_to_space", "ignore_space_rejected_without_SPACE", "connector_matrix", "connector_raw", "connector_dual",
-                             "space_run_longer_than_65535", "space_category_with_non_whitespace_character"],
+                             "space_run_longer_than_65535", "space_category_with_non_whitespace_character", "category_with_a_name_resembling_SPACE"],
         "assumptions": [],
     },
     "C05": {
@@ -153,7 +153,7 @@ CHECKS = {
                 "stage): readable, re-written byte-identically, token-for-token the same results. Distinct = hash of (image, later operations).",
         "required_buckets": ["connector_matrix", "connector_raw", "connector_dual", "with_user_lexicon", "with_id_mapping", "later_load_user",
                              "later_clear", "later_map", "later_write_read", "failing_writer_yields_err_and_prefix", "image_read_through_chunked_reader",
-                             "foreign_image_read_rewritten_and_tokenized_identically", "image_followed_by_user_lexicon_in_one_stream", "char_def_assigns_U+0000", "feature_string_of_65536_bytes_or_more"],
+                             "foreign_image_read_rewritten_and_tokenized_identically", "image_followed_by_user_lexicon_in_one_stream", "char_def_assigns_U+0000", "feature_string_of_65536_bytes_or_more", "image_written_through_short_write_sink"],
         "assumptions": ["images are compared between a portable and an AVX2 build made by the same compiler on this machine"],
     },
     "C07": {
@@ -215,7 +215,7 @@ CHECKS = {
                 "word_feature(i) byte for byte in row order, no extra word, and for every distinct surface the lattice nodes at position 0 = "
                 "the rows with that surface (row index, ids, cost). Distinct = hash of the CSV text.",
         "required_buckets": ["homographs", "empty_surface_row_skipped", "no_final_newline", "file_ends_after_fourth_comma",
-                             "surface_with_comma_or_quote", "quoted_feature_cell", "empty_feature", "system_lexicon", "user_lexicon", "same_rows_as_system_and_user_lexicon", "256_or_more_homographs_of_one_surface"],
+                             "surface_with_comma_or_quote", "quoted_feature_cell", "empty_feature", "system_lexicon", "user_lexicon", "same_rows_as_system_and_user_lexicon", "256_or_more_homographs_of_one_surface", "user_lexicon_replaces_an_installed_one"],
         "assumptions": ["well-formed = \\n line ends, no BOM, no NUL, no line feed inside a quoted cell (a carriage return there is data), fields < 4096 bytes",
                         "a lexicon in which no row has a surface may be rejected with an error"],
     },
@@ -306,7 +306,7 @@ CHECKS = {
                 "connection cost of EVERY id pair incl. row/column 0 is compared through the cost accessor: |bigram - matrix| <= K+1 "
                 "(K = number of BIGRAM templates), same dimensions, lexicon accepted by all three. Distinct = hash of (matrix.def, bigram.cost).",
         "required_buckets": ["training_succeeded", "raw_compared", "dual_compared", "pair_with_id_0_compared", "non_zero_cell_compared",
-                             "fewer_than_8_templates", "8_or_more_templates", "bigram_feature_string_longer_than_4096_bytes"],
+                             "fewer_than_8_templates", "8_or_more_templates", "bigram_feature_string_longer_than_4096_bytes", "compared_again_after_id_mapping"],
         "assumptions": [],
     },
     "C17": {
@@ -359,7 +359,7 @@ CHECKS = {
                 "dictionary (any connector kind, -S/-M options) with 33 input lines and parses their stdout as a corpus: tokens = the "
                 "tokens obtained in-process for the same lines. Distinct = hash of the corpus text / CLI output.",
         "required_buckets": ["sentence_without_tokens_dropped", "token_whose_surface_is_EOS", "malformed_line_rejected", "non_utf8_line_rejected",
-                             "tokenizer_cli_output_parsed_as_corpus", "token_of_65536_bytes_or_more", "first_line_starts_with_U+FEFF", "tokenizer_output_accepted_by_trainer", "cli_input_without_final_line_feed"],
+                             "tokenizer_cli_output_parsed_as_corpus", "token_of_65536_bytes_or_more", "first_line_starts_with_U+FEFF", "tokenizer_output_accepted_by_trainer", "cli_input_without_final_line_feed", "tokenizer_output_split_into_train_valid_test", "tokenizer_output_evaluated"],
         "assumptions": ["tokenizer inputs and dictionary features contain no tab or line break"],
     },
     "C20": {
